@@ -27,6 +27,7 @@ static _Atomic int receiving[RT_MAX_THREADS];
 /* two multi-waiter signals (include/fiber_signal.h, fiber_multi_signal_*): any fiber may wait, any fiber may raise */
 static fiber_multi_signal_t msig[2];
 static fiber_rwlock_t rwl;
+static fiber_barrier_t bar2;   /* count 2: used by exactly two fibers, equally often (the generator guarantees it) */
 static _Atomic int rw_readers, rw_writers;
 static _Atomic long ms_raised[2], ms_returned[2];
 static _Atomic int ms_waiting[2];
@@ -120,6 +121,13 @@ static void* fiber_prog(void* param) {
         fiber_rwlock_wrunlock(&rwl);
         break;
       }
+      case 24: if (!held[0] && !held[1]) fiber_barrier_wait(&bar2); break;   /* ping-pong through a two-party barrier */
+      case 23: {  /* create a child and detach it LATE: after a yields it may have finished and be parking for a joiner */
+        fiber_t* c = fiber_create(20000, &child_prog, NULL);
+        for (long y = 0; y < 1 + 2 * a; y++) fiber_yield();
+        fiber_detach(c);
+        break;
+      }
       case 18: usleep(1000 + 4000 * (unsigned)a); break;   /* fiber sleep of 2 or 6 virtual ticks (the main fiber advances time) */
       case 15: fiber_cond_signal(&cond); break;      /* signal WITHOUT holding the user mutex */
       case 16: fiber_cond_broadcast(&cond); break;   /* broadcast WITHOUT holding the user mutex */
@@ -178,6 +186,7 @@ static void main_fiber(void) {
   fiber_cond_init(&cond);
   fiber_semaphore_init(&sem, 0);
   fiber_rwlock_init(&rwl); rw_readers = 0; rw_writers = 0;
+  fiber_barrier_init(&bar2, 2);
   for (int w = 0; w < 2; w++) { fiber_multi_signal_init(&msig[w]); ms_raised[w] = 0; ms_returned[w] = 0; ms_waiting[w] = 0; }
   for (int f = 0; f < nf; f++) { fiber_signal_init(&sigs[f]); chans[f] = fiber_bounded_channel_create(2, &sigs[f]); receiving[f] = 0; }
   /* optional 3rd parameter: the main fiber's FIRST blocking call is a sleep (1: before it creates the fibers, 2: right
